@@ -304,6 +304,8 @@ def finish(mod, tier, total, coverage, t0, assumptions):
     coverage.setdefault('distinct_nontrivial', len(total.digests))
     coverage.setdefault('samples', total.samples[:MAX_SAMPLES])
     if not coverage['samples']:
+        coverage['samples'] = [jsonable(v['case']) for v in total.viol[:3]]
+    if not coverage['samples']:
         raise HarnessError('the run produced no sample cases for the evidence file (check %s)' % prop_id)
     coverage.setdefault('exhaustive', not total.extra.get('failfast_stopped'))
     coverage['outcome_histogram'] = dict(total.hist)
